@@ -8,7 +8,7 @@ import json
 import sys
 
 from enc import dec_sent, enc_sent
-from pytableaux.lang import (Argument, Atomic, Constant, LexWriter, Marking, Notation, Operator, Parser, Predicate,
+from pytableaux.lang import (Argument, Atomic, Constant, LexWriter, Marking, Notation, Operated, Operator, Parser, Predicate,
                              Predicates, Quantifier, Variable)
 from pytableaux.lang.parsing import ParseTable
 from pytableaux.lang.writing import StringTable
@@ -70,7 +70,8 @@ def do_replay(sents, out, shard, nshards):
                 except Exception:
                     ok = False
                 if ok:
-                    arg = Argument(s, (prev, s)[: 1 + n % 2])
+                    # one or two premises, also with a premise REPEATED (an argument is a sequence of premises)
+                    arg = Argument(s, [(prev,), (prev, s), (prev, s, prev), (prev, prev)][n % 4])
                     a = {'prems': [enc_sent(p) for p in arg.premises], 'conc': enc_sent(arg.conclusion)}
                     try:
                         astr = arg.argstr()
@@ -85,6 +86,20 @@ def do_replay(sents, out, shard, nshards):
 
 def do_writers(sents, out):
     ss = [dec_sent(json.loads(l)['s']) for l in open(sents)]
+    # one long-lived writer renders the whole space IN THIS ORDER: every binary sentence X is followed by sentences
+    # that contain it as an operand and by its look-alikes with the negation / quantifier moved inside
+    # (~X vs (~l) o r,  Q x X vs (Q x l) o r): what a writer rendered before must not leak into what it renders next
+    seen = {json.dumps(enc_sent(x)) for x in ss}
+    extra = []
+    for x in ss[:400]:
+        if type(x) is Operated and len(x.operands) == 2:
+            l, r = x.operands
+            for y in (~x, x.operator(~l, r), x.operator(x, r), x.operator(l, x)):
+                k = json.dumps(enc_sent(y))
+                if k not in seen:
+                    seen.add(k)
+                    extra.append(y)
+    ss = ss + extra
     with open(out, 'w') as o:
         k = 0
         for (fmt, notn, dialect) in StringTable._instances:
